@@ -101,7 +101,7 @@ func TestVerifC14Cached(t *testing.T) {
 			}
 			nested := func(err error, ran bool) error {
 				if ran {
-					return errors.New("c14: nested body ran")
+					return verifc14.NewSrcErr("nestran", nil) // the nested Transact ran its body instead of refusing
 				}
 				return err
 			}
